@@ -343,6 +343,14 @@ def run(ctx):
         # a loop over the frontier
         tested = {x.id for x in ast.walk(iff.test) if isinstance(x, ast.Name)} if ok else set()
         filled = {norm(c.func.value) for c in calls_in(s) if isinstance(c.func, ast.Attribute) and c.func.attr in ("append", "add")}
+        # … or derived from such a local (a comprehension / sorted() over the frontier instead of an append loop)
+        for _ in range(3):
+            for a in own_nodes(s.node):
+                if isinstance(a, (ast.Assign, ast.AnnAssign)) and getattr(a, "value", None) is not None and any(
+                        isinstance(x, ast.Name) and x.id in filled for x in ast.walk(a.value)):
+                    for t in (a.targets if isinstance(a, ast.Assign) else [a.target]):
+                        if isinstance(t, ast.Name):
+                            filled.add(t.id)
         ok = ok and bool(tested & filled)
         tn = [x for x in cfg.node_of(iff) if x.kind == "test"][0]
         wn = [x for x in cfg.node_of(loops[0]) if x.kind == "test"][0]
@@ -371,8 +379,9 @@ def run(ctx):
               how="the visited set tested by the traversal loop is initialised from the inputs")
     # frontier acceptance: `<v> not in <set built from the inputs> and not <v>.is_initializer()`
     chk = []
-    for iff in (n for n in own_nodes(s.node) if isinstance(n, ast.If)):
-        t = iff.test
+    # the filter may be the test of an `if` in an append loop or the condition of a comprehension
+    conds = [(n, n.test) for n in own_nodes(s.node) if isinstance(n, ast.If)] + [(n, c_) for n in own_nodes(s.node) if isinstance(n, ast.comprehension) for c_ in n.ifs]
+    for iff, t in conds:
         if isinstance(t, ast.BoolOp) and isinstance(t.op, ast.And):
             has_notin = any(isinstance(v, ast.Compare) and isinstance(v.ops[0], ast.NotIn) and isinstance(v.comparators[0], ast.Name)
                             and (from_inputs(v.comparators[0].id) or v.comparators[0].id == inputs_p) for v in t.values)
